@@ -1000,7 +1000,7 @@ theorem parse_validLits {expr : Bytes} {n : INode} (h : Parser.parse expr = .ok 
           let node ← expression (fuelFor ts.length) 1
           if (← currType) != .end then Parser.fail .unexpectedToken
           return node : PM INode) := by
-        refine PostV.bind ((pih _).expression _) fun node hn => ?_
+        refine PostV.bind ((PV.pih _).expression _) fun node hn => ?_
         refine PostV.bind PostV.currType fun _ _ => ?_
         refine PostV.ite (fun _ => ?_) (fun _ => ?_)
         · exact PostV.fail_bind
